@@ -64,7 +64,7 @@ def maybe_integer_dtype(st, pred, p=4):
     return pred, None
 
 
-def draw_game(st, like=None):
+def draw_game(st, like=None, other=None):
     """A game whose classical_value takes the pool branch.  Returns
     (prob_mat, pred_mat, meta).  With `like` (the meta of an earlier game) the new
     game has the same shape and different contents."""
@@ -76,7 +76,7 @@ def draw_game(st, like=None):
         s_enum = eo**ei
         alice_enumerated = bool(st.draw(2))
         cands = [(o, i) for (o, i) in OTHER_SHAPES if (o**i > s_enum if alice_enumerated else o**i >= s_enum) and o * i * eo * ei <= 6000]
-        oo, oi = cands[st.draw(len(cands))]
+        oo, oi = cands[st.draw(len(cands))] if other is None else other
     if alice_enumerated:
         a_out, a_in, b_out, b_in = eo, ei, oo, oi
     else:
